@@ -469,6 +469,7 @@ func checkC15(R *Run) {
 		}
 	}
 	R.floor("pw-semantics", 4)
+	R.ruleBatchIndependent()
 
 	// ---- acct-shape
 	if g := R.mustFn("(*mobius.YAMLAccountManager).Get"); g != nil {
@@ -520,7 +521,7 @@ func checkC15(R *Run) {
 				// and can the constructor return success from inside an iteration before inserting?
 				for _, ret := range returnsOf(n) {
 					if isSuccessReturn(ret) && reachesWithout(iterStart.Block(), instrIndex(iterStart)+1, ret, ins) && iterStart.Block().Dominates(ret.Block()) {
-						if reachableFrom(iterStart.Block(), nil)[iterStart.Block()] && reachableFrom(ret.Block(), nil)[iterStart.Block()] {
+						if inLoop(iterStart.Block()) && reachableFrom(ret.Block(), nil)[iterStart.Block()] {
 							complete = false
 						}
 					}
@@ -565,3 +566,94 @@ func mapIdx(l []*ssa.MapUpdate, m *ssa.MapUpdate) int {
 }
 
 func init() { register("C15", checkC15) }
+
+// ruleBatchIndependent: the multi-user editor (transaction 349) applies each entry of the request on its own.  The
+// per-entry state (which login to load, whether it is a rename, the decoded sub-fields) must be defined afresh in
+// every iteration: a value that flows around the loop's back edge into a use of the next iteration makes the
+// outcome for one account depend on the entry before it.
+func (R *Run) ruleBatchIndependent() {
+	P := R.P
+	R.rule("batch-independent", "in the handler of the batched account editor, no value other than the range index and the accumulated replies is carried around the back edge of the loop over the request's fields into a use in the next iteration (a slice re-sliced to [:0] is a reset, not a use)")
+	var fn *ssa.Function
+	for _, reg := range R.registeredHandlers() {
+		if reg.Num == 349 {
+			fn = reg.Fn
+		}
+	}
+	if fn == nil {
+		R.und("batch-independent", "transaction 349", "-", "no handler registered")
+		return
+	}
+	R.analysed(fname(fn))
+	// the loop over t.Fields
+	var header *ssa.BasicBlock
+	var idxVal ssa.Value
+	eachInstr(fn, func(ins ssa.Instruction) {
+		ia, ok := ins.(*ssa.IndexAddr)
+		if !ok || header != nil {
+			return
+		}
+		if f, ok := loadedField(ia.X); !ok || f != "hotline.Transaction.Fields" {
+			return
+		}
+		if _, _, ok := indexRange(ia.Index); ok {
+			header = ia.Index.(ssa.Instruction).Block()
+			idxVal = ia.Index
+		}
+	})
+	if header == nil {
+		R.und("batch-independent", fname(fn), P.pos(fn.Pos()), "the loop over the request's fields was not recognised")
+		return
+	}
+	inLoopBlk := func(b *ssa.BasicBlock) bool {
+		return b == header || (reachableFrom(header, nil)[b] && reachableFrom(b, nil)[header])
+	}
+	var carried []string
+	for _, ins := range header.Instrs {
+		phi, ok := ins.(*ssa.Phi)
+		if !ok {
+			break
+		}
+		if b, isB := idxVal.(*ssa.BinOp); (isB && b.X == ssa.Value(phi)) || idxVal == ssa.Value(phi) {
+			continue // the range index
+		}
+		if typeName(phi.Type()) == "[]hotline.Transaction" {
+			continue // the replies accumulate by design
+		}
+		back := false
+		for i, e := range phi.Edges {
+			if inLoopBlk(header.Preds[i]) && e != ssa.Value(phi) {
+				if c, isC := e.(*ssa.Const); isC && c.Value == nil {
+					continue // reset to the zero value on the way round
+				}
+				back = true
+			}
+		}
+		if !back {
+			continue
+		}
+		used := false
+		for _, r := range *phi.Referrers() {
+			switch x := r.(type) {
+			case *ssa.DebugRef:
+			case *ssa.Slice:
+				if k, ok := constInt(x.High); !(ok && k == 0 && x.Low == nil) {
+					used = true
+				}
+			case *ssa.Phi:
+				// merged onwards: judge the merge by its own uses
+				for _, rr := range *x.Referrers() {
+					if _, dbg := rr.(*ssa.DebugRef); !dbg {
+						used = true
+					}
+				}
+			default:
+				used = true
+			}
+		}
+		if used {
+			carried = append(carried, phi.Comment+" ("+typeName(phi.Type())+")")
+		}
+	}
+	R.check(len(carried) == 0, "batch-independent", fname(fn)+": loop over the request's fields", P.pos(fn.Pos()), "no per-entry state survives into the next iteration", "per-entry state is carried from one entry of the batch into the next: "+strings.Join(carried, ", ")+" — an entry without that sub-field is applied with the value left by the entry before it (wrong account renamed / overwritten)")
+}
